@@ -3,6 +3,8 @@ pub mod common;
 pub mod types;
 #[cfg(kani)]
 mod c12;
+#[cfg(all(kani, feature = "feat"))]
+mod c12f;
 #[cfg(kani)]
 mod c13;
 #[cfg(kani)]
